@@ -30,6 +30,7 @@ type SEnv struct {
 	pkgCtx      *types.Package // package context override (bodies of spec funcs of another package)
 	assumeMode  bool           // the formula being evaluated will be assumed, not proved
 	inSpecFunc  bool           // evaluating the body of a spec func: only its parameters and package-level names are visible
+	headSt      *State         // loop step clauses: the state at the start of the iteration ($head)
 	localsFirst bool           // identifiers denote current values of locals/params (loop invariants, call-site asserts)
 }
 
@@ -1007,6 +1008,15 @@ func (e *SEnv) call(x *SCall) Val {
 		case "$idx":
 			k, _ := strconv.Atoi(x.Args[0].(*SInt).V)
 			return intVal(e.fr.rangeIndex(e.localState(), k))
+		case "$head":
+			if e.headSt == nil {
+				e.fail("$head() is available in loop step clauses only")
+			}
+			n := e.sub()
+			n.cur = e.headSt
+			n.locSt = e.headSt
+			n.headSt = nil
+			return n.eval(x.Args[0])
 		case "$rng":
 			k, _ := strconv.Atoi(x.Args[0].(*SInt).V)
 			return e.fr.rangeValue(e.localState(), k)
